@@ -147,3 +147,74 @@ func VH_S_Search() {
 		vx.Assert(vx.And(n.Id == pat, n.Limit == limit, n.SortId != nil, *n.SortId == vx.Lookup(read, "schedules", last.Id).Int("sort_id"), vx.MapEq(n.Tags, req.Tags)), "C14:cursor-continues-the-same-query")
 	}
 }
+
+// VH_S_Lifecycle (C10 / C20): one server process, sequentially: a schedule is created, fires, is deleted,
+// is re-created under the same id with a different configuration and fires again. Whatever the process keeps
+// between requests (caches keyed by id, shared maps), the second firing's promise carries the second
+// configuration only, and the first firing's promise the first.
+func VH_S_Lifecycle() {
+	c := vhSetup(vx.Sequential)
+	cfg, _ := c.Get("config").(*system.Config)
+	id, cron := vx.String("id"), vx.String("cron")
+	tags1, tags2 := vx.Tags("ptags1", 1), vx.Tags("ptags2", 1)
+	hdr1, hdr2 := vx.Tags("phdr1", 1), vx.Tags("phdr2", 1)
+	mk := func(tags, hdr map[string]string, data []byte) *t_api.Request {
+		return &t_api.Request{Kind: t_api.CreateSchedule, Tags: map[string]string{}, CreateSchedule: &t_api.CreateScheduleRequest{Id: id, Cron: cron,
+			Tags: map[string]string{}, PromiseId: id + ".{{.timestamp}}", PromiseTimeout: 1000, PromiseParam: promise.Value{Headers: hdr, Data: data}, PromiseTags: tags}}
+	}
+	fired := func() (vx.Row, bool) {
+		n0 := vx.NYields()
+		_, _ = SchedulePromises(cfg, map[string]string{})(c)
+		for i := n0 + 1; i < vx.NYields(); i++ {
+			if vx.YieldKind(i) != "store" {
+				continue
+			}
+			pre, post := vx.YieldPre(i), vx.YieldPost(i)
+			for k := 0; k < vx.NSlots("promises"); k++ {
+				a, b := vx.Slot(pre, "promises", k), vx.Slot(post, "promises", k)
+				if !a.Present() && b.Present() {
+					return b, true
+				}
+			}
+		}
+		return vx.Row{}, false
+	}
+	r1, err := CreateSchedule(c, mk(tags1, hdr1, []byte("one")))
+	if err != nil || r1.CreateSchedule.Status != t_api.StatusCreated {
+		return
+	}
+	p1, ok1 := fired()
+	if !ok1 {
+		return
+	}
+	vx.Reach("first-firing")
+	want1 := vhCopyMap(tags1)
+	want1["resonate:schedule"] = id
+	want1["resonate:invocation"] = "true"
+	vx.Assert(vx.And(vx.MapEq(p1.Map("tags"), want1), vx.MapEq(p1.Map("param_headers"), hdr1), vx.BytesEq(p1.Bytes("param_data"), []byte("one"))), "C10:lifecycle-first-firing-as-configured")
+	d, err := DeleteSchedule(c, &t_api.Request{Kind: t_api.DeleteSchedule, Tags: map[string]string{}, DeleteSchedule: &t_api.DeleteScheduleRequest{Id: id}})
+	if err != nil || d.DeleteSchedule.Status != t_api.StatusNoContent {
+		return
+	}
+	r2, err := CreateSchedule(c, mk(tags2, hdr2, []byte("two")))
+	if err != nil || r2.CreateSchedule.Status != t_api.StatusCreated {
+		return
+	}
+	p2, ok2 := fired()
+	if !ok2 {
+		return
+	}
+	vx.Reach("second-firing")
+	want2 := vhCopyMap(tags2)
+	want2["resonate:schedule"] = id
+	want2["resonate:invocation"] = "true"
+	vx.Assert(vx.And(vx.MapEq(p2.Map("tags"), want2), vx.MapEq(p2.Map("param_headers"), hdr2), vx.BytesEq(p2.Bytes("param_data"), []byte("two"))), "C10:lifecycle-recreated-schedule-fires-with-its-own-configuration")
+}
+
+func vhCopyMap(m map[string]string) map[string]string {
+	out := map[string]string{}
+	for k, v := range m {
+		out[k] = v
+	}
+	return out
+}
